@@ -440,6 +440,122 @@ func main() {
 	fmt.Printf("Definition get_authority_key : string := %s.\n", CoqString(keyOf("GetDenomAuthorityMetadata", "denomAdmins.Get")))
 	fmt.Printf("Definition has_denom_key : string := %s.\n", CoqString(keyOf("HasDenom", "GetDenomMetaData")))
 
+	// the admin lookups read the store directly: their statement lists, and every keeper-held field /
+	// package variable that could hold state outside the (transactional) store
+	bodyOf := func(fn string) []string {
+		fds := g.funcs[fn]
+		if len(fds) != 1 {
+			return nil
+		}
+		env := map[string]string{}
+		var out []string
+		for _, st := range fds[0].Body.List {
+			switch x := st.(type) {
+			case *ast.AssignStmt:
+				if len(x.Rhs) == 1 {
+					if c, ok := x.Rhs[0].(*ast.CallExpr); ok {
+						r := g.render(c, env)
+						if id, ok := x.Lhs[0].(*ast.Ident); ok {
+							env[id.Name] = r
+						}
+						out = append(out, "read:"+r)
+						continue
+					}
+					if id, ok := x.Lhs[0].(*ast.Ident); ok {
+						env[id.Name] = g.render(x.Rhs[0], env)
+						continue
+					}
+				}
+				out = append(out, "other:"+Nospace(x))
+			case *ast.IfStmt:
+				if x.Init == nil && isErrCond(x.Cond) {
+					continue
+				}
+				out = append(out, "other:"+Nospace(x))
+			case *ast.ReturnStmt:
+				var rs []string
+				for _, r := range x.Results {
+					rs = append(rs, g.render(r, env))
+				}
+				out = append(out, "return:"+strings.Join(rs, ","))
+			default:
+				out = append(out, "other:"+Nospace(st))
+			}
+		}
+		return out
+	}
+	fmt.Printf("Definition get_admin_body : list string := %s.\n", coqList(bodyOf("GetAdmin")))
+	fmt.Printf("Definition get_authority_body : list string := %s.\n", coqList(bodyOf("GetDenomAuthorityMetadata")))
+	var mutable func(e ast.Expr) bool
+	mutable = func(e ast.Expr) bool {
+		switch x := e.(type) {
+		case *ast.StarExpr, *ast.MapType, *ast.ChanType, *ast.ArrayType, *ast.FuncType:
+			return true
+		case *ast.SelectorExpr:
+			if id, ok := x.X.(*ast.Ident); ok && (id.Name == "sync" || id.Name == "atomic") {
+				return true
+			}
+		case *ast.IndexExpr:
+			return mutable(x.X)
+		}
+		return false
+	}
+	var fields, vars []string
+	for _, fl := range keeper {
+		for _, d := range fl.F.Decls {
+			gd, ok := d.(*ast.GenDecl)
+			if !ok {
+				continue
+			}
+			for _, sp := range gd.Specs {
+				switch x := sp.(type) {
+				case *ast.TypeSpec:
+					st, ok := x.Type.(*ast.StructType)
+					if !ok || (x.Name.Name != "Keeper" && x.Name.Name != "StoreAPI") {
+						continue
+					}
+					for _, f := range st.Fields.List {
+						if mutable(f.Type) {
+							for _, nm := range f.Names {
+								fields = append(fields, x.Name.Name+"."+nm.Name+":"+Nospace(f.Type))
+							}
+						}
+					}
+				case *ast.ValueSpec:
+					if gd.Tok != token.VAR {
+						continue
+					}
+					for i, nm := range x.Names {
+						if nm.Name == "_" {
+							continue
+						}
+						isMut := x.Type != nil && mutable(x.Type)
+						if i < len(x.Values) {
+							switch v := x.Values[i].(type) {
+							case *ast.CompositeLit:
+								isMut = isMut || mutable(v.Type)
+							case *ast.UnaryExpr:
+								isMut = isMut || v.Op == token.AND
+							case *ast.CallExpr:
+								if id, ok := v.Fun.(*ast.Ident); ok && (id.Name == "make" || id.Name == "new") {
+									isMut = true
+								}
+							}
+						}
+						if isMut {
+							vars = append(vars, nm.Name)
+						}
+					}
+				}
+			}
+		}
+	}
+	sort.Strings(fields)
+	sort.Strings(vars)
+	fmt.Println("(* keeper / store-API fields and package variables that can hold mutable state outside the store : pointer, map, slice, chan, func or sync types *)")
+	fmt.Printf("Definition keeper_mutable_fields : list string := %s.\n", coqList(fields))
+	fmt.Printf("Definition keeper_mutable_package_vars : list string := %s.\n", coqList(vars))
+
 	// types: DenomStr.ToStruct case conditions, TFDenom.Denom format
 	tg := &gen{funcs: map[string][]*ast.FuncDecl{}, consts: map[string]string{}}
 	collectConsts(types, "", tg.consts)
